@@ -190,7 +190,18 @@ def check(case, stats):
     showdown_push = [o for o in pushes if o.board_index is not None]
     if showdown_push:
         boards = [list(s.get_board_cards(k)) for k in range(b * r)]
+        # a stud street the deck cannot cover is dealt as shared board
+        # cards instead (documented fall-back, decided by C10): those streets
+        # add their hole-card count to every board
+        fallback = sum(
+            len(o.cards) for o in ops if op_kind(o) == 'deal_board'
+        ) - total_board * b * r if total_board == 0 else 0
         for k, bd in enumerate(boards):
+            if total_board == 0 and fallback > 0:
+                # boards exist only because of the fall-back: not a board
+                # game in the sense of this property
+                stats.count('not_judged:stud_fall_back_board')
+                break
             if len(bd) != total_board:
                 out.append(V(ID, 'incomplete_board', '',
                              f'board {k} = {bd} ({len(bd)} of'
